@@ -278,4 +278,74 @@ theorem items_spec (s : CState K V) (hi : CInv s) : items s = .ok (abs s) := by
     | nil => rfl
     | cons p m ih => simp [List.filterMap_cons, ih]
 
+/-! ### reference counts of an iterator step -/
+
+theorem mem_slotsOf_of_mem_toList : ∀ (h : Nat) (t : Tree K V h) (k : K) (v : V), (k, v) ∈ toList h t →
+    Obj.key k ∈ slotsOf h t ∧ Obj.val v ∈ slotsOf h t := by
+  intro h
+  induction h with
+  | zero =>
+    intro t k v hm
+    have hm' : (k, v) ∈ (t : Leaf K V).keys.zip (t : Leaf K V).vals := by
+      simpa [toList, Tree.leaves, Leaf.entries] using hm
+    have h1 := (List.of_mem_zip hm').1
+    have h2 := (List.of_mem_zip hm').2
+    show Obj.key k ∈ (t : Leaf K V).keys.map Obj.key ++ (t : Leaf K V).vals.map Obj.val ∧ Obj.val v ∈ (t : Leaf K V).keys.map Obj.key ++ (t : Leaf K V).vals.map Obj.val
+    exact ⟨List.mem_append_left _ (List.mem_map_of_mem h1), List.mem_append_right _ (List.mem_map_of_mem h2)⟩
+  | succ h ih =>
+    intro t k v hm
+    have hm' : (k, v) ∈ (Branch.children t).flatMap (toList h) := by
+      simpa [toList, Tree.leaves, List.flatMap_assoc] using hm
+    obtain ⟨c, hc, hcm⟩ := List.mem_flatMap.1 hm'
+    obtain ⟨a, b⟩ := ih c k v hcm
+    show Obj.key k ∈ (Branch.keys t).map Obj.key ++ (Branch.children t).flatMap (slotsOf h) ∧ Obj.val v ∈ (Branch.keys t).map Obj.key ++ (Branch.children t).flatMap (slotsOf h)
+    exact ⟨List.mem_append_right _ (List.mem_flatMap.2 ⟨c, hc, a⟩), List.mem_append_right _ (List.mem_flatMap.2 ⟨c, hc, b⟩)⟩
+
+/-- the remaining entries in front of a positioned iterator are entries of the tree -/
+theorem pos_sub_abs (s : CState K V) (it : Iter) (R : List (K × V)) (hp : Pos s it R) : ∀ kv ∈ R, kv ∈ abs s := by
+  intro kv hkv
+  obtain ⟨_, hpos⟩ := hp
+  rcases hpos with ⟨_, rfl⟩ | ⟨P, l, Q, hsplit, _, _, rfl⟩
+  · cases hkv
+  · unfold abs toList
+    rw [hsplit]
+    simp only [List.flatMap_append, List.flatMap_cons, List.mem_append]
+    rcases List.mem_append.1 hkv with h | h
+    · exact Or.inr (Or.inl (List.mem_of_mem_drop h))
+    · exact Or.inr (Or.inr h)
+
+/-- **reference counts of one iterator step**: it releases nothing, takes exactly one new reference for each object inside
+    the value it returns, and every object it touches is currently owned by a slot of the tree (no stale object is revived) -/
+theorem iterNext_refs (s : CState K V) (hw : Walk s) (it : Iter) (R : List (K × V)) (hp : Pos s it R) :
+    ∃ it' out, iterNext s it = .ok (it', out) ∧ (iterEvs out).dec = [] ∧ (iterEvs out).inc = handedOut out ∧
+      ∀ o ∈ (iterEvs out).inc, o ∈ slots s := by
+  obtain ⟨it', he, _, _⟩ := iterNext_pos s hw it R hp
+  refine ⟨it', _, he, ?_, ?_, ?_⟩
+  · cases R with
+    | nil => rfl
+    | cons kv R' => obtain ⟨k, v⟩ := kv; unfold outOf; cases it.withValues <;> rfl
+  · cases R with
+    | nil => rfl
+    | cons kv R' => obtain ⟨k, v⟩ := kv; unfold outOf; cases it.withValues <;> rfl
+  · cases R with
+    | nil => intro o ho; cases ho
+    | cons kv R' =>
+      obtain ⟨k, v⟩ := kv
+      have hm := pos_sub_abs s it _ hp (k, v) List.mem_cons_self
+      obtain ⟨a, b⟩ := mem_slotsOf_of_mem_toList s.height s.root k v hm
+      intro o ho
+      unfold outOf at ho
+      cases hwv : it.withValues with
+      | true =>
+        rw [hwv] at ho
+        simp only [if_true, iterEvs, List.mem_cons, List.mem_nil_iff, or_false] at ho
+        rcases ho with rfl | rfl
+        · exact a
+        · exact b
+      | false =>
+        rw [hwv] at ho
+        simp only [Bool.false_eq_true, if_false, iterEvs, List.mem_cons, List.mem_nil_iff, or_false] at ho
+        subst ho
+        exact a
+
 end BPT.C
